@@ -61,6 +61,8 @@ def can_produce(t, creator, p, spmc_owner):
 
 @st.composite
 def cases(draw, ctx):
+    if ctx.get("variant") == "stacked":
+        return draw(stacked_cases(ctx))
     if ctx.get("variant") == "resumerace":
         # suspended ULTs resumed from other threads while their stream is being joined
         # (gen/c11.py, race): the resumed unit must still run before the join returns
@@ -73,6 +75,66 @@ def cases(draw, ctx):
         from gen import c06
         return draw(c06.cases(ctx)) + "note c01-xsjoin\n"
     return draw(cases_main(ctx))
+
+
+@st.composite
+def stacked_cases(draw, ctx):
+    """Stacked schedulers that have little or nothing to do: ABT_pool_add_sched pushes the
+    scheduler's ULT into a pool of another running stream, where it may start, find its
+    pools empty, finish and be freed while the caller is still inside ABT_pool_add_sched.
+    Units are created in the stacked scheduler's pools before it is added; nothing is
+    pushed there afterwards (the pools die with the scheduler)."""
+    nxs = draw(st.integers(2, 4))
+    if ctx.get("native") or draw(st.integers(0, 3)) == 0:
+        lines = [draw(sched_line(ctx, extra=" tick=10000"))]
+    else:
+        # these runs take 2-6 thousand scheduling points: PCT change points placed inside
+        lines = ["cfg seed=%d strat=pct d=%d pctlen=%d tick=10000" %
+                 (draw(st.integers(0, 2 ** 31 - 1)), draw(st.integers(1, 3)),
+                  draw(st.sampled_from([2500, 4000, 6000])))]
+    lines += ["pool 0 kind=fifo access=mpmc"]
+    for i in range(1, nxs):
+        lines.append("pool %d kind=%s access=mpmc" % (i, draw(st.sampled_from(["fifo", "fifo", "fifo_wait", "randws"]))))
+    np_ = nxs
+    nsub = draw(st.integers(2, 6))
+    subs, units, main = [], [], []
+    for sidx in range(nsub):
+        k = draw(st.sampled_from([1, 1, 2]))
+        pools = list(range(np_, np_ + k))
+        np_ += k
+        for p in pools:
+            lines.append("pool %d kind=fifo access=mpmc" % p)
+        subs.append("sub %d sched=%s pools=%s" % (sidx, draw(st.sampled_from(["basic", "basic", "prio", "randws"])),
+                                                   ",".join(map(str, pools))))
+        for p in pools:
+            for _ in range(draw(st.sampled_from([0, 0, 1, 1, 2]))):
+                u = len(units)
+                units.append("unit %d type=%s named=0 pool=%d : %s" %
+                             (u, draw(st.sampled_from(["ult", "ult", "task"])), p,
+                              draw(st.sampled_from(["nop", "nop", "work 1", "work 3"]))))
+                main.append("create %d" % u)
+    lines.append("xs 0 sched=default pools=0")
+    for i in range(1, nxs):
+        lines.append("xs %d sched=%s pools=%d" % (i, draw(st.sampled_from(["basic", "basic", "prio", "basic_wait"]))
+                                                  if False else "basic", i))
+    lines += subs
+    # some ordinary work on the hosting streams so that their schedulers are busy or idle
+    for i in range(1, nxs):
+        for _ in range(draw(st.integers(0, 2))):
+            u = len(units)
+            units.append("unit %d type=ult named=0 pool=%d : %s" %
+                         (u, i, draw(st.sampled_from(["yield", "work 2", "yield; yield", "nop"]))))
+            main.append("create %d" % u)
+    order = draw(st.permutations(list(range(nsub))))
+    for sidx in order:
+        main.append("addsched %d %d" % (draw(st.integers(1, nxs - 1)), sidx))
+        if draw(st.integers(0, 2)) == 0:
+            main.append(draw(st.sampled_from(["yield", "work 1"])))
+    lines += units
+    lines.append("main : " + "; ".join(main))
+    lines.append("note nxs=%d shared=0 subs=%d" % (nxs, nsub))
+    lines.append("note c01-stacked")
+    return "\n".join(lines) + "\n"
 
 
 @st.composite
@@ -251,6 +313,8 @@ def classify(text, res, ctx):
 def nontrivial(text, res, ctx):
     if "note c01-resumerace" in text:
         return stat(res, "resumes") >= 1 and "xs" in text.split("main :")[-1]
+    if "note c01-stacked" in text:
+        return stat(res, "stacked_scheds") >= 1
     if "note c01-xsjoin" in text:
         return stat(res, "xsjoin_with_pending_units") >= 1
     import re
@@ -262,8 +326,10 @@ def nontrivial(text, res, ctx):
 PLAN = {
     "quick": [("coarse", 6, 250), ("fine", 3, 200), ("san", 3, 80), ("native", 2, 150),
               ("coarse", 3, 250, "xsjoin"), ("native", 1, 150, "xsjoin"),
-              ("coarse", 3, 300, "resumerace")],
+              ("coarse", 3, 300, "resumerace"), ("san", 4, 220, "stacked"), ("nopool", 3, 220, "stacked"),
+              ("coarse", 1, 200, "stacked")],
     "thorough": [("coarse", 6, 5000), ("fine", 6, 3000), ("san", 2, 1500), ("nopool", 1, 1000),
                  ("native", 1, 2500), ("coarse", 3, 5000, "xsjoin"), ("fine", 2, 3000, "xsjoin"),
-                 ("coarse", 3, 5000, "resumerace")],
+                 ("coarse", 3, 5000, "resumerace"), ("san", 3, 2000, "stacked"), ("nopool", 3, 2000, "stacked"),
+                 ("fine", 2, 2000, "stacked")],
 }
